@@ -22,7 +22,7 @@ CLAIMED = {
                 "_bool_key_frame, _list_key_frame) and .pod units (C02_pod_string_key_frame, _list_key_frame, on the `podman pod create` ExecStartPre= line), each with a non-vacuity example, plus kernel-checked witnesses of the two repaired defects over the full container converter. The special "
                 "handlers, word-list and name=value kinds, and the whole-command clauses (nothing else changes, global options before the sub-command, PodmanArgs after the key options, object then Exec last) "
                 "are decided by the direct metamorphic oracle on implementation output (with/without the key, all 7 types) plus whole-service correspondence with the converter model. "
-                "Position clauses proved for EVERY successful conversion of .container, .image and .network units (C02_container_command_shape, C02_image_command_shape, C02_network_command_shape: every handler only appends, so the command is "
+                "Position clauses proved for EVERY successful conversion of ALL SEVEN unit types (C02_container_command_shape, C02_image_command_shape, C02_network_command_shape, C02_volume_command_shape, C02_kube_command_shape, C02_build_command_shape on ExecStart=, C02_pod_command_shape on ExecStartPre=: every handler only appends, so the command is "
                 "[podman] ++ --module options ++ GlobalArgs ++ sub-command words ++ key options ++ PodmanArgs ++ object (image or --rootfs R / name) ++ Exec words -- global options before the sub-command, PodmanArgs after all key options, object then Exec last).",
         "note": "Trusted: Coq kernel; tools/docs.py / Spec/Docs.v as the documentation transcript; the converter model; extraction; driver; Mount= modelled only on the csv crate's quote-free domain.",
         "technique": "machine-checked proof in Rocq (Coq 8.16) of table equalities and handler frame theorems; metamorphic oracle and differential correspondence for the whole command",
@@ -64,7 +64,7 @@ CLAIMED = {
                 "store a raw control character), C06_write_calls (write_to = to_string). The generator clause (every stored value is of that form) is tied by a store-site inventory of convert.rs "
                 "and decided by a direct oracle (convert, serialise, read back with the implementation's parser) over units of all 7 types with injection payloads: partial in that respect. "
                 "Known finding BlankAtValueEdge. "
-                "Generator clause, first half, proved over the WHOLE RUN on arbitrary file contents: C06_generated_services_have_no_newline / C06_generated_services_line_count (every service any of the seven converters produces has no newline in any section name, key or value -- user entries: the parser machine never lets one in (C06_parsed_units_have_no_newline); generated entries: quote_value / quote_words never emit a control character; keys and section names are literals -- hence exactly one physical line per entry and two per section in the written file: no value can add, split or swallow a line); C06_conversion_adds_no_newline for a single conversion. THE GENERATOR CLAUSE IN FULL, over the whole run: C06_generated_services_are_shaped (distinct section names, each non-empty without ']' and newline; keys of key characters only; no newline anywhere), C06_generated_services_are_validated (every value of every generated service passes the load-time validation: NUL-freeness is carried from the unit files through unquoting, word splitting, path resolution and the name table to every stored value) and C06_every_generated_service_reads_back (for arbitrary unit file contents every service the generator produces -- unless an entry has an empty key or a value with a blank at an edge, the known class -- is read back from the generator's own text as exactly itself), with a non-vacuity example.",
+                "Generator clause, first half, proved over the WHOLE RUN on arbitrary file contents: C06_generated_services_have_no_newline / C06_generated_services_line_count (every service any of the seven converters produces has no newline in any section name, key or value -- user entries: the parser machine never lets one in (C06_parsed_units_have_no_newline); generated entries: quote_value / quote_words never emit a control character; keys and section names are literals -- hence exactly one physical line per entry and two per section in the written file: no value can add, split or swallow a line); C06_conversion_adds_no_newline for a single conversion. THE GENERATOR CLAUSE IN FULL, over the whole run: C06_generated_services_are_shaped (distinct section names, each non-empty without ']' and newline; keys of key characters only; no newline anywhere), C06_generated_services_are_validated (every value of every generated service passes the load-time validation: NUL-freeness is carried from the unit files through unquoting, word splitting, path resolution and the name table to every stored value) and C06_every_generated_service_reads_back (for arbitrary unit file contents every service the generator produces -- unless an entry has an empty key or a value with a blank at an edge, the known class -- is read back from the generator's own text as exactly itself), with a non-vacuity example; the same for the run over unit files with their drop-ins (C06_every_generated_service_reads_back_with_dropins, Model/ProcessD.v).",
         "note": "Trusted: Coq kernel; Spec/Layout.v; extraction; driver; generators; the documented key tables in tools/docs.py used to build convertible units.",
         "technique": "machine-checked proof in Rocq (Coq 8.16): serialiser/parser round trip as a corollary of the layout theorem + store-site inventory + differential correspondence check",
         "design": "DESIGN.md §7 C06",
